@@ -104,7 +104,7 @@ func (g *cyGen) relPat(bind bool) string {
 	rng := ""
 	if expansion {
 		g.use("expansion")
-		rng = Pick(g.rng, []string{"*", "*1..", "*..2", "*1..2", "*2..3", "*0..1", "*2"})
+		rng = Pick(g.rng, []string{"*", "*1..", "*..2", "*1..2", "*2..3", "*0..1", "*2", "*2..2", "*1", "*3..3"})
 	}
 	if bind || g.rng.Chance(1, 2) {
 		if expansion {
